@@ -67,10 +67,10 @@ func runC15(c *Ctx) {
 		}
 		// creators enumerated
 		allowed := map[string]string{
-			"PutSyncTree":             "gated by checkTreeDeleted",
-			"ValidateRawTreeDefault":  "validation on the space storage: reached from getTree's fetch (gated) or from a temp storage",
-			"ValidateFilterRawTree":   "validation: same as above",
-			"CreateTreeStorage":       "delegating wrapper",
+			"PutSyncTree":                       "gated by checkTreeDeleted",
+			"ValidateRawTreeDefault":            "validation on the space storage: reached from getTree's fetch (gated) or from a temp storage",
+			"ValidateFilterRawTree":             "validation: same as above",
+			"CreateTreeStorage":                 "delegating wrapper",
 			"CreateStorageWithDeferredCreation": "delegating wrapper",
 		}
 		n := 0
@@ -295,7 +295,8 @@ func runC15(c *Ctx) {
 				return false, false
 			}
 			k, ok := a.Y.(*ssa.Const)
-			if !ok || k.Value == nil || k.Value.ExactString() != `""` || !IsLoadOfField(a.X, p.Field(otPkg+":Change.ParentId")) {
+			// (inside the extracted late-child helper the parent id may arrive as a parameter)
+			if !ok || k.Value == nil || k.Value.ExactString() != `""` || !IsLoadOfField(BoundValue(a.X), p.Field(otPkg+":Change.ParentId")) {
 				return false, false
 			}
 			return true, a.Op == token.EQL
@@ -339,55 +340,62 @@ func runC15(c *Ctx) {
 				}
 			}
 		}
-		removed := map[Edge]bool{}
-		ok := len(queueing) > 0
-		for _, g := range []Gate{parentAlive, noParent} {
-			pe, sites := g.PassEdges(target)
-			if len(sites) == 0 {
-				if _, outerSites := g.PassEdges(cst); target == cst || len(outerSites) == 0 {
-					ok = false
-				}
-			}
-			for e := range pe {
-				removed[e] = true
-			}
-		}
-		if helperCall != nil && ok {
-			// in the caller: with a parent, every success passes the helper
-			np, _ := noParent.PassEdges(cst)
-			rc := Reach(cst, ReachOpts{Removed: np, Cut: func(in ssa.Instruction) bool { return in == helperCall }})
-			for _, ret := range SuccessReturns(cst) {
-				if rc.Reachable(ret) {
-					ok = false
-				}
-			}
-			requirePropagates(c, "C15.5-late-child", cst, func(cc *ssa.CallCommon) bool { return CalleeFunc(cc) == target }, FuncName(target))
-		}
-		cst = target
-		// a failed second parent lookup also skips (no entry)
-		for e := range GErrNil("GetEntry(parent)==nil", getEntry).FailEdges(cst) {
-			removed[e] = true
-		}
-		bad := ""
-		if !ok {
-			bad = "CreateStorageTx no longer compares the parent's status with Queued (>= Queued must queue the late child) or no longer queues it"
-		} else {
-			isQ := func(in ssa.Instruction) bool {
-				for _, q := range queueing {
-					if q == in {
-						return true
+		decide := func() {
+			removed := map[Edge]bool{}
+			ok := len(queueing) > 0
+			for _, g := range []Gate{parentAlive, noParent} {
+				pe, sites := g.PassEdges(target)
+				if len(sites) == 0 {
+					if _, outerSites := g.PassEdges(cst); target == cst || len(outerSites) == 0 {
+						ok = false
 					}
 				}
-				return false
-			}
-			r := Reach(cst, ReachOpts{Removed: removed, Cut: isQ})
-			for _, ret := range SuccessReturns(cst) {
-				if r.Reachable(ret) {
-					bad = "a child whose parent is queued OR deleted can be created without being queued for deletion (witness " + r.Path(p, ret) + ")"
+				for e := range pe {
+					removed[e] = true
 				}
 			}
+			if helperCall != nil && ok {
+				// in the caller: with a parent, every success passes the helper
+				np, _ := noParent.PassEdges(cst)
+				rc := Reach(cst, ReachOpts{Removed: np, Cut: func(in ssa.Instruction) bool { return in == helperCall }})
+				for _, ret := range SuccessReturns(cst) {
+					if rc.Reachable(ret) {
+						ok = false
+					}
+				}
+				requirePropagates(c, "C15.5-late-child", cst, func(cc *ssa.CallCommon) bool { return CalleeFunc(cc) == target }, FuncName(target))
+			}
+			cst = target
+			// a failed second parent lookup also skips (no entry)
+			for e := range GErrNil("GetEntry(parent)==nil", getEntry).FailEdges(cst) {
+				removed[e] = true
+			}
+			bad := ""
+			if !ok {
+				bad = "CreateStorageTx no longer compares the parent's status with Queued (>= Queued must queue the late child) or no longer queues it"
+			} else {
+				isQ := func(in ssa.Instruction) bool {
+					for _, q := range queueing {
+						if q == in {
+							return true
+						}
+					}
+					return false
+				}
+				r := Reach(cst, ReachOpts{Removed: removed, Cut: isQ})
+				for _, ret := range SuccessReturns(cst) {
+					if r.Reachable(ret) {
+						bad = "a child whose parent is queued OR deleted can be created without being queued for deletion (witness " + r.Path(p, ret) + ")"
+					}
+				}
+			}
+			c.Check(bad == "", "C15.5-late-child", FuncName(cst)+"|child of a deleted/queued parent is queued", p.Pos(cst.Pos()), orDefault(bad, "with a parent, success without queueing the child requires parent.DeletedStatus < Queued"))
 		}
-		c.Check(bad == "", "C15.5-late-child", FuncName(cst)+"|child of a deleted/queued parent is queued", p.Pos(cst.Pos()), orDefault(bad, "with a parent, success without queueing the child requires parent.DeletedStatus < Queued"))
+		if hc, isCall := helperCall.(*ssa.Call); isCall {
+			BindParams(target, hc, decide)
+		} else {
+			decide()
+		}
 	}
 
 	// ---- C15.6 worker order
